@@ -23,8 +23,9 @@
     * `mpo_split_independent`   – the result does not depend on where the chain is split
       (`contract_split`: any `1 ≤ m ≤ N-2`);
     * `updateH_eq_rebuild`      – `update_H` on the factors = the factors built with the new terms;
-    * `mpo_eq_dense_after_updates` – hence the contraction theorem after any two (by iteration: any
-      number of) in-place updates;
+    * `mpo_eq_dense_after_updates` – hence the contraction theorem after two in-place updates;
+      `updateSeq_eq_rebuild`, `mpo_eq_dense_after_update_seq`, `mpo_eq_dense_after_zero_update` – after
+      ANY finite sequence of updates on the same factor list (each `h` arbitrary, `0` included);
     * `updateH_last_write_wins`, `updateH_only_slots`, `updateH_shape` – generic facts about
       `update_H` on *any* factor list: idempotent/last write wins, touches only `[0][0,:,:,0]`,
       `[i][1,:,:,0]`, keeps every shape.
@@ -136,6 +137,36 @@ theorem mpo_eq_dense_after_updates (P : Params α A) (h₁ h₂ : ℕ → A) (em
       = [Hdense (withH P h₂) emb] := by
   rw [updateH_factors P h₁ hN, updateH_factors (withH P h₁) h₂ hN]
   exact mpo_eq_dense (withH P h₂) emb hemb hU hN
+
+/-- Any sequence of in-place updates (`update_H` folded over the same factor list) leaves exactly
+the factors of the Hamiltonian with the LAST single-site terms (every `h` may be anything, in
+particular identically `0`: an all-zero drive step after a driven/noisy one). -/
+theorem updateSeq_eq_rebuild (P : Params α A) (hs : List (ℕ → A)) (hN : 2 ≤ P.N) :
+    hs.foldl updateH (factors P) = factors (withH P (hs.getLastD P.h)) := by
+  induction hs generalizing P with
+  | nil => rfl
+  | cons h hs ih =>
+    rw [List.foldl_cons, updateH_factors P h hN, ih (withH P h) hN, List.getLastD_cons]
+    rfl
+
+/-- **In-place clause, any number of updates**: after `update_H` with `h₁, …, h_k, h` in sequence on
+the same MPO the contraction is the dense Hamiltonian with the last terms `h`. -/
+theorem mpo_eq_dense_after_update_seq (P : Params α A) (hs : List (ℕ → A)) (h : ℕ → A)
+    (emb : ℕ → A →ₗ[α] R) (hemb : ∀ n, emb n 1 = 1) (hU : ∀ i j, P.U i j = P.U j i) (hN : 2 ≤ P.N) :
+    contractFrom (fun n => ⇑(emb n)) 0 [1] ((hs ++ [h]).foldl updateH (factors P))
+      = [Hdense (withH P h) emb] := by
+  rw [updateSeq_eq_rebuild P (hs ++ [h]) hN, List.getLastD_concat]
+  exact mpo_eq_dense (withH P h) emb hemb hU hN
+
+/-- The case the seeded `update_H` early return breaks: a step with all-zero single-site terms after
+arbitrary earlier steps leaves the pure interaction Hamiltonian (no stale drive/noise terms). -/
+theorem mpo_eq_dense_after_zero_update (P : Params α A) (hs : List (ℕ → A))
+    (emb : ℕ → A →ₗ[α] R) (hemb : ∀ n, emb n 1 = 1) (hU : ∀ i j, P.U i j = P.U j i) (hN : 2 ≤ P.N) :
+    contractFrom (fun n => ⇑(emb n)) 0 [1] ((hs ++ [fun _ => 0]).foldl updateH (factors P))
+      = [∑ j ∈ range P.N, ∑ i ∈ range j, ∑ k ∈ range P.K,
+          (P.c * P.U i j) • (emb i (P.op k) * emb j (P.op k))] := by
+  rw [mpo_eq_dense_after_update_seq P hs _ emb hemb hU hN]
+  simp [Hdense, withH]
 
 /-- The statement of DESIGN §5 verbatim: site embeddings that are unital algebra homomorphisms
 (a special case: only linearity and `emb n 1 = 1` are used). -/
